@@ -71,31 +71,29 @@ def insertInt (x : Int) : List Int → List Int
   | [] => [x]
   | y :: rest => if x < y then x :: y :: rest else if x = y then y :: rest else y :: insertInt x rest
 
-/-- The distinct z values in increasing order. -/
-def zLevels (kids : List Tree) : List Int := (kids.map zOf).foldr insertInt []
+/-- The distinct keys in increasing order. -/
+def keyLevels {α : Type} (l : List (Int × α)) : List Int := (l.map (·.1)).foldr insertInt []
 
-/-- Children in z-order; children of equal z keep their order. -/
-def orderByZ (kids : List Tree) : List Tree :=
-  (zLevels kids).flatMap fun v => kids.filter fun k => zOf k == v
+/-- Order by key; entries of equal key keep their order ("z-order, ties in child order"). -/
+def orderByKey {α : Type} (l : List (Int × α)) : List (Int × α) :=
+  (keyLevels l).flatMap fun v => l.filter fun p => p.1 == v
 
 mutual
 /-- Painter's order: the surface, then its children by z (ties in child order), each at parent
-origin + offset and clipped to every ancestor. `fuel` bounds the depth (trees are finite).
-`clipOwn = false` makes this surface's own rectangle not clip its descendants (used only to
-classify a difference at the root, see `expectedPaint`). -/
-def layers : Nat → Bool → Tree → Int → Int → Rect → List Layer
-  | 0, _, _, _, _, _ => []
-  | fuel + 1, clipOwn, .node col row _ w h buf kids, px, py, clip =>
+origin + offset and clipped to every ancestor.  `clipOwn = false` makes this surface's own rectangle
+not clip its descendants (used only to classify a difference at the root, see `expectedPaint`). -/
+def layers : Bool → Tree → Int → Int → Rect → List Layer
+  | clipOwn, .node col row _ w h buf kids, px, py, clip =>
       let ax := px + col
       let ay := py + row
       let own : Rect := { x0 := ax, y0 := ay, x1 := ax + w, y1 := ay + h }
       let c := if clipOwn then clip.inter own else clip
       { ax := ax, ay := ay, clip := c, w := w, buf := buf } ::
-        layersList fuel (orderByZ kids) ax ay c
-def layersList : Nat → List Tree → Int → Int → Rect → List Layer
-  | 0, _, _, _, _ => []
-  | _, [], _, _, _ => []
-  | fuel + 1, k :: rest, px, py, clip => layers fuel true k px py clip ++ layersList fuel rest px py clip
+        ((orderByKey (layersEach kids ax ay c)).flatMap (·.2))
+/-- Each child's layers, tagged with its z. -/
+def layersEach : List Tree → Int → Int → Rect → List (Int × List Layer)
+  | [], _, _, _ => []
+  | k :: rest, px, py, clip => (zOf k, layers true k px py clip) :: layersEach rest px py clip
 end
 
 /-- What layer `l` shows at absolute `(x,y)`, if anything. -/
@@ -106,15 +104,19 @@ def Layer.at (l : Layer) (x y : Int) : Option Cell :=
     if dx < l.w then l.buf[dy * l.w + dx]? else none
   else none
 
-/-- The last layer that shows something at `(x,y)`. -/
-def topAt (ls : List Layer) (x y : Int) : Option Cell :=
-  ls.foldl (fun acc l => match l.at x y with | some c => some c | none => acc) none
+/-- The last layer (in painter's order) that shows something at `(x,y)`. -/
+def topAt : List Layer → Int → Int → Option Cell
+  | [], _, _ => none
+  | l :: rest, x, y =>
+      match topAt rest x y with
+      | some c => some c
+      | none => l.at x y
 
 /-- Expected painted cells on a `sw×sh` window, (y,x) order. `rootClips = true` is the property as
 stated (every surface, the root included, clips its descendants; the window clips everything);
 `false` lets the root's children overflow the root's own rectangle (still clipped by the window). -/
-def expectedPaint (fuel : Nat) (rootClips : Bool) (t : Tree) (sw sh : Int) : List (Int × Int × Cell) :=
-  let ls := layers fuel rootClips t 0 0 { x0 := 0, y0 := 0, x1 := sw, y1 := sh }
+def expectedPaint (rootClips : Bool) (t : Tree) (sw sh : Int) : List (Int × Int × Cell) :=
+  let ls := layers rootClips t 0 0 { x0 := 0, y0 := 0, x1 := sw, y1 := sh }
   (upTo sh).flatMap fun y => (upTo sw).filterMap fun x => (topAt ls x y).map fun c => (x, y, c)
 
 end VaxisModel.Spec.Surface
